@@ -250,11 +250,14 @@ package mongodb
 //@   modifies alloc, G:qKind, G:qColl, G:qFilter, G:qCount, G:qErr, G:qUpsert, G:qReturnAfter, G:lastNum, map[string]interface{}
 
 // purgeAllDocumentsOfCollectionNum (the body of a collection reset): the four kinds of documents of THAT collection
-// number are deleted — operations, snapshots, datatypes, clients — and a failure of any step is reported.
+// number are deleted — operations, snapshots, datatypes, clients — and a failure of any step is reported; the
+// collection's own entry goes last (structural), so that a reset that failed half-way can be repeated.
 //@ func (*MongoCollections).purgeAllDocumentsOfCollectionNum
 //@   trusted MongoDB DeleteMany / DeleteOne semantics
 //@   mode math
 //@   props C17
+//@   calls-after purgeAllCollectionDatatypes DeleteOne
+//@   calls-after purgeAllCollectionClients DeleteOne
 //@   requires ctx != nil && its.operations != its.snapshots && its.operations != its.datatypes && its.snapshots != its.datatypes && its.clients != its.operations && its.clients != its.snapshots && its.clients != its.datatypes && its.collections != its.operations && its.collections != its.snapshots && its.collections != its.datatypes && its.collections != its.clients
 //@   checks[all-four-kinds-of-that-collection] result == nil ==> lastCmd(old(its.operations), "DeleteMany", "colNum", collectionNum) && lastCmd(old(its.snapshots), "DeleteMany", "colNum", collectionNum) && lastCmd(old(its.datatypes), "DeleteMany", "colNum", collectionNum) && lastCmd(old(its.clients), "DeleteMany", "colNum", collectionNum)
 //@   checks[database-error-is-reported] G.qErr != nil ==> result != nil
